@@ -225,6 +225,61 @@ func c17Forged(claim int64, variant int) pxScenario {
 		Tags: []string{"forged", fmt.Sprintf("claims=%d", claim)}}
 }
 
+// two roles on ONE peer, in both orders, with every error value: its write loop parked in a Write (blocked; with a
+// transport that honours / ignores its context) or failing (before / after handing the envelope over), and its read
+// loop failing or parked in a Read that ignores its context. Whichever loop fails first must be reported with its own
+// error and the entry removed - although the other loop may never return - and the peer is dialled again.
+func c17TwoRoles(first, second string, deaf bool, ek int) pxScenario {
+	b := &pxBuilder{tok: 100}
+	b.add(att(1)...)
+	b.add(att(2)...)
+	b.add(PAct{Op: "attach", N: 3, Deaf: deaf})
+	b.add(b.send(1, 3))
+	role := func(what string) {
+		switch what {
+		case "stuck-writer":
+			b.add(PAct{Op: "setw", N: 3, M: "block"})
+			b.add(b.send(1, 3)) // now inside the blocked Write
+			b.add(b.send(2, 3))
+		case "failing-reader":
+			b.add(PAct{Op: "failread", N: 3, Err: ek})
+		case "failing-writer":
+			b.add(PAct{Op: "setw", N: 3, M: "fail", Err: ek})
+			b.add(b.send(1, 3))
+		case "failafter-writer":
+			b.add(PAct{Op: "setw", N: 3, M: "failafter", Err: ek})
+			b.add(b.send(2, 3))
+		case "idle": // the other loop just sits in its Read / select
+		}
+	}
+	role(first)
+	b.add(b.send(1, 2)) // live traffic
+	role(second)
+	b.add(b.send(2, 1))
+	b.add(b.send(1, 3)) // the name must be dialled again
+	b.add(PAct{Op: "dial", N: 3, M: "ok"})
+	b.add(b.send(2, 3))
+	b.add(PAct{Op: "setw", N: 3, Gen: 1, M: "ok"}) // the old connection's stuck Write is released at last
+	b.add(b.send(1, 3))
+	return pxScenario{Icp: 0, ByRef: ek%2 == 0, Steps: b.steps,
+		Tags: []string{"two-roles", "first=" + first, "then=" + second, fmt.Sprintf("ctx-ignoring=%v", deaf), fmt.Sprintf("err=%d", ek)}}
+}
+
+// the dial-error role with every error value (and the name dialled again)
+func c17DialErr(ek int) pxScenario {
+	b := &pxBuilder{tok: 100}
+	b.add(att(1)...)
+	b.add(att(2)...)
+	b.add(b.send(1, 5))
+	b.add(b.send(2, 5))
+	b.add(PAct{Op: "dial", N: 5, M: "fail", Err: ek})
+	b.add(b.send(1, 2))
+	b.add(b.send(1, 5))
+	b.add(PAct{Op: "dial", N: 5, M: "ok"})
+	b.add(b.send(2, 5))
+	return pxScenario{Icp: 0, Steps: b.steps, Tags: []string{"dial-error-values", fmt.Sprintf("err=%d", ek)}}
+}
+
 // faults and cancellation at the same moment: a group of actions performed without waiting in between, the
 // cancellation either as one of them or from inside the forwarding loop (while it forwards a p -> q envelope)
 func c17Concurrent(what string, inLoop bool, variant int) pxScenario {
@@ -317,6 +372,27 @@ func c17Scenarios() []pxScenario {
 		}
 	}
 	var out []pxScenario
+	k := 0
+	for _, pair := range [][2]string{{"stuck-writer", "failing-reader"}, {"failing-reader", "stuck-writer"},
+		{"failing-writer", "failing-reader"}, {"failing-reader", "failing-writer"}, {"failafter-writer", "failing-reader"},
+		{"idle", "failing-writer"}, {"idle", "failafter-writer"}, {"idle", "failing-reader"}, {"stuck-writer", "failing-writer"}} {
+		for _, deaf := range []bool{false, true} {
+			for ek := 0; ek < pxNumErrKinds; ek++ {
+				k++
+				if !thorough() && ek >= 2 && (k+ek)%3 != 0 {
+					continue // quick tier: error values 0 and 1 for every pair, a third of the others
+				}
+				sc := c17TwoRoles(pair[0], pair[1], deaf, ek)
+				out = append(out, sc)
+				if ek < 2 {
+					bases = append(bases, sc) // ... and the context cancelled at every step
+				}
+			}
+		}
+	}
+	for ek := 0; ek < pxNumErrKinds; ek++ {
+		out = append(out, c17DialErr(ek))
+	}
 	out = append(out, forged...)
 	out = append(out, bases...)
 	for bi, sc := range bases {
